@@ -1,7 +1,7 @@
 (* C07 correspondence: DQN loss on crafted batches with tabular Q-functions; SAC q_loss reported by sac_train on
    constant batches with a deterministic stub policy and tabular critics; SAC actor loss. *)
-From Coq Require Import List ZArith QArith Qminmax Bool.
-From Lerax Require Import Common Losses C08Check.
+From Coq Require Import List ZArith QArith Qminmax Qround Bool.
+From Lerax Require Import Common Losses C08Check Env Tab OnPolicy Replay OffPolicy C06Check.
 Import ListNotations.
 
 Definition tdQ := td_target Q 0 1 Qplus Qmult.
@@ -18,7 +18,10 @@ Definition argmax (l : list Q) : nat := match l with [] => 0%nat | x :: tl => ar
 Inductive case :=
 | CDqn (gamma : Q) (q_taken : list Q) (rewards : list Q) (next_online next_target : list (list Q)) (dones timeouts : list bool) (loss : Q)
 | CSacQ (gamma alpha : Q) (q1 q2 : list Q) (rewards : list Q) (tq1 tq2 next_logp : list Q) (dones timeouts : list bool) (q_loss : Q)
-| CSacActor (alpha : Q) (logps q1 q2 : list Q) (loss : Q).
+| CSacActor (alpha : Q) (logps q1 q2 : list Q) (loss : Q)
+(* end to end: transitions stored by the real warm-up collection on a key-free finite MDP (buffer not wrapped),
+   then DQN.dqn_loss on that buffer with tabular online/target Q-functions *)
+| CDqnE2E (t : tab) (stack : list wd) (p : ptab) (L : nat) (canon_a : Q) (key : kpath) (gamma : Q) (qon qtg : list (list Q)) (loss : Q).
 
 Definition model (c : case) : Q :=
   match c with
@@ -30,8 +33,20 @@ Definition model (c : case) : Q :=
                          (combine (combine rewards vn) (combine dones timeouts)) in
       sac_q_lossQ q1 q2 targets
   | CSacActor alpha logps q1 q2 _ => sac_actorQ alpha logps q1 q2
+  | CDqnE2E t stack p L canon_a key gamma qon qtg _ =>
+      let E := wrap_d stack (tab_env t []) in
+      let P := tab_pol p [] in
+      match off_reset E P 1 L L [0] canon_a key with
+      | (_, buf) :: _ =>
+          let rows := map (row_at d0 buf) (seq 0 L) in
+          let qrow (tbl : list (list Q)) (o : list Q) := nthz tbl (obs_idx o) [] in
+          dqn_lossQ gamma (map (fun r => nthz (qrow qon (t_obs r)) (Qfloor (t_act r)) 0) rows) (map (@t_rew _ _ _) rows)
+                    (map (fun r => nth (argmax (qrow qon (t_next r))) (qrow qtg (t_next r)) 0) rows)
+                    (map (@t_done _ _ _) rows) (map (@t_timeout _ _ _) rows)
+      | [] => 0
+      end
   end.
-Definition imp (c : case) : Q := match c with CDqn _ _ _ _ _ _ _ l => l | CSacQ _ _ _ _ _ _ _ _ _ _ l => l | CSacActor _ _ _ _ l => l end.
+Definition imp (c : case) : Q := match c with CDqn _ _ _ _ _ _ _ l => l | CSacQ _ _ _ _ _ _ _ _ _ _ l => l | CSacActor _ _ _ _ l => l | CDqnE2E _ _ _ _ _ _ _ _ _ l => l end.
 
 Definition agree (c : case) : bool := Qclose (1 # 1000000000000) (model c) (imp c).   (* the mean over a batch whose size is not a power of two is rounded *)
 Definition holds (c : case) : bool := agree c.
